@@ -10,6 +10,9 @@ def dispatch (mode : String) : Option (List String → Verdict) :=
   match mode with
   | "C10" => some SockModel.Drive.C10.runCase
   | "C06" => some SockModel.Drive.C06.runCase
+  | "C01" => some SockModel.Drive.C01.runCaseC01
+  | "C07s" => some SockModel.Drive.C01.runCaseC07
+  | "C16" => some SockModel.Drive.C01.runCaseC16
   | "C06legacy" => some SockModel.Drive.C06.runCaseLegacy
   | _ => none
 
